@@ -210,6 +210,31 @@ func c18Snapshots(k int) map[string]*config.ClusterResources {
 		res["rej-localpref-equal-length-only-"+fam] = &lpf
 	}
 
+	// an aggregation length that is too short for one family only, on dual-stack pools: the per-family loop over
+	// the pool's CIDRs runs in map order, the verdict must not depend on it
+	for _, fam := range []string{"v4", "v6"} {
+		ag := c18Apply(rich, nil)
+		l4, l6 := int32(16), int32(128)
+		if fam == "v6" {
+			l4, l6 = 32, 48
+		}
+		// one pool only: a single non-default map order flips the whole verdict if it can be flipped at all
+		ag.BGPAdvs[0].Spec = metallbv1beta1.BGPAdvertisementSpec{AggregationLength: ptr.To(l4), AggregationLengthV6: ptr.To(l6), IPAddressPools: []string{"pool-" + names[k-1]}}
+		res["rej-aggregation-too-short-only-"+fam] = &ag
+	}
+
+	// ties: two pools pinned to the same namespaces with the same non-zero priority, two selector pools likewise
+	tie := c18Apply(rich, nil)
+	for i := range tie.Pools {
+		switch i {
+		case 0, 1:
+			tie.Pools[i].Spec.AllocateTo = &metallbv1beta1.ServiceAllocation{Priority: 7, Namespaces: []string{"ns-a", "ns-b"}}
+		default:
+			tie.Pools[i].Spec.AllocateTo = &metallbv1beta1.ServiceAllocation{Priority: 7, ServiceSelectors: []metav1.LabelSelector{sel("app", "web")}}
+		}
+	}
+	res["equal-priorities"] = &tie
+
 	nodeip := c18Apply(rich, nil)
 	nodeip.Nodes[k-1].Status.Addresses[0].Address = "10.0.1.7"
 	res["rej-node-ip-in-pool"] = &nodeip
